@@ -27,8 +27,9 @@ ANCHORS = ["PropertyDescriptor.__set__", "PropertyDescriptor._ensure_monitored_t
            "MonitoredSet.update", "MonitoredContainer._on_add"]
 
 LIST_OPS = ["assign_new", "assign_self", "iadd", "append", "extend", "insert", "setitem", "setslice", "extend_self", "iadd_alias",
-            "setitem_rejected", "inverse_write", "assign_rejected"]
-SET_OPS = ["assign_new", "assign_self", "ior", "add", "update", "update_multi", "ior_alias", "inverse_write", "assign_rejected"]
+            "setitem_rejected", "inverse_write", "assign_rejected", "setslice_extended"]
+SET_OPS = ["assign_new", "assign_self", "ior", "add", "update", "update_multi", "ior_alias", "inverse_write", "assign_rejected",
+           "sym_diff_update", "ixor_alias", "add_rejected"]
 # the argument of extend / += / slice assignment / update may be any iterable, also a one-shot one
 ARG_FORMS = ["list", "list", "tuple", "gen", "iter", "map", "reversed"]
 
@@ -48,11 +49,12 @@ def as_argument(vals, form):
 
 
 def plan(tier):
-    return {"cases": 3000 if tier == "quick" else 80000, "shards": 16, "case_timeout": 30, "shard_timeout": 3000,
+    return {"cases": 3800 if tier == "quick" else 80000, "shards": 16, "case_timeout": 30, "shard_timeout": 3000,
             "hashseeds": [0, 1, 2, 3], "min_nontrivial": 100,
             "min_counters": {"operations_applied": 8000, "content_checks": 8000, "relation_checks": 2500,
                              "tlist_operations": 1000, "tlist_negative_positions": 100,
-                             "inverse_writes": 500, "rejected_assignments": 300}}
+                             "inverse_writes": 500, "rejected_assignments": 300, "extended_slice_assignments": 300,
+                             "extended_slice_assignments_of_no_position": 50, "symmetric_difference_writes": 300, "rejected_set_additions": 100}}
 
 
 def setup(ctx):
@@ -452,6 +454,34 @@ def run(spec, ctx):
                 alias |= set(vals)
                 model = model | set(vals)
                 C["alias_inplace_ops"] += 1
+            elif op in ("sym_diff_update", "ixor_alias"):
+                # the values that are not in the set yet become part of it, the others leave it
+                if op == "ixor_alias":
+                    alias = getattr(owner, field)
+                    alias ^= set(vals)
+                else:
+                    cont.symmetric_difference_update(as_argument(list(dict.fromkeys(vals)), form))
+                model = model ^ set(vals)
+                vals = [v for v in vals if v in model]
+                C["symmetric_difference_writes"] += 1
+            elif op == "add_rejected":
+                # a value the set itself refuses (not hashable): nothing becomes part of the field, nothing is recorded
+                if twins:
+                    continue
+                loose = om.Loose(f"l{op_number}")
+                named[loose.name] = loose
+                name_of[id(loose)] = loose.name
+                C["rejected_set_additions"] += 1
+                try:
+                    cont.add(loose)
+                    problems.append("a value that is not hashable was accepted by a set-valued field")
+                    break
+                except TypeError:
+                    pass
+                if any(y is owner for y in loose.member_of):
+                    problems.append(f"the set refused {loose.name} (not hashable) but {loose.name}.member_of holds the owner: the refused write was recorded")
+                    break
+                vals = []
             elif op == "update_multi":
                 cont.update(as_argument(vals[:1], form), vals[1:])
                 model.update(vals)
@@ -472,6 +502,18 @@ def run(spec, ctx):
                 a = pos % (len(model) + 1)
                 cont[a:a + 1] = as_argument(vals, form)
                 model[a:a + 1] = vals
+            elif op == "setslice_extended":
+                # an extended slice (step other than 1) with bounds that may lie outside the list on either side
+                import random as _random
+                r_ = _random.Random(pos * 1000 + len(model) + len(idxs))
+                bound = lambda: r_.choice([None, None, r_.randint(-9, 9)])
+                sl = slice(bound(), bound(), r_.choice([-3, -2, -1, -1, 2, 3]))
+                size = len(range(*sl.indices(len(model))))
+                vals = [others[r_.randrange(len(others))] for _ in range(size)]
+                cont[sl] = as_argument(vals, form)
+                model[sl] = vals
+                C["extended_slice_assignments"] += 1
+                C["extended_slice_assignments_of_no_position"] += size == 0
             elif op == "setitem_rejected":
                 # an item assignment that Python rejects: nothing becomes part of the field, nothing is recorded
                 if not vals:
